@@ -1,6 +1,7 @@
 package small
 
 import (
+	"os"
 	"fmt"
 	"go/ast"
 	"go/constant"
@@ -286,7 +287,7 @@ func OrderDomainIn(p *load.Program, rel string) *report.RuleResult {
 		}
 	}
 	if problems, decided := versionNewByEval(pk, newFd); newFd != nil && decided {
-		res.Check(len(problems) == 0, "New", p.Pos(newFd.Pos()), "version.New", "on every version string of the family the result is (major, minor) of `<number>.<number>` and an error for everything else", strings.Join(problems, "; "))
+		res.Check(len(problems) == 0, "New", p.Pos(newFd.Pos()), "version.New", "on every version string of the family (34 strings; in the thorough tier also every string of up to four characters over 7, 0, dot, minus, a letter and a blank) the result is (major, minor) of `<number>.<number>` and an error for everything else", strings.Join(problems, "; "))
 	} else if w, err := effects.NewWorld(p); err != nil {
 		res.Unknown("New", "-", "", "undecided:ssa: "+err.Error())
 	} else {
@@ -334,7 +335,7 @@ func checkVersionNew(p *load.Program, pk *packages.Package, res *report.RuleResu
 	// version strings and compared with the rule "exactly one dot separates two base-10 numbers that fit 64
 	// bits"; the shape of the body (which library call splits the string) is only read when it cannot be evaluated
 	if problems, decided := versionNewByEval(pk, fd); decided {
-		res.Check(len(problems) == 0, "New", pos, "version.New", "on every version string of the family the result is (major, minor) of `<number>.<number>` and an error for everything else", strings.Join(problems, "; "))
+		res.Check(len(problems) == 0, "New", pos, "version.New", "on every version string of the family (34 strings; in the thorough tier also every string of up to four characters over 7, 0, dot, minus, a letter and a blank) the result is (major, minor) of `<number>.<number>` and an error for everything else", strings.Join(problems, "; "))
 		return
 	}
 	got := map[string]string{} // field -> "parts[i]"
@@ -1032,6 +1033,23 @@ func versionNewByEval(pk *packages.Package, fd *ast.FuncDecl) (problems []string
 	family := []string{"7.4", "5.6", "7.0", "5.3", "10.12", "0.0", "07.04", "123456789.987654321", "18446744073709551615.1",
 		"", "7", ".", "7.", ".4", "7.4.1", "7..4", "a.b", "7.b", "a.4", "-7.4", "7.-4", "+7.4", " 7.4", "7.4 ", "7,4", "0x7.4", "7_0.4", "1e1.4",
 		"18446744073709551616.1", "1.18446744073709551616", "7.4\n", "..", "7.4.", "٧.٤"}
+	if os.Getenv("VERIF_TIER") == "thorough" {
+		// every string of up to four characters over the characters the format can tell apart
+		alpha := []byte{'7', '0', '.', '-', 'a', ' '}
+		var gen func(prefix string, n int)
+		gen = func(prefix string, n int) {
+			if prefix != "" {
+				family = append(family, prefix)
+			}
+			if n == 0 {
+				return
+			}
+			for _, c := range alpha {
+				gen(prefix+string([]byte{c}), n-1)
+			}
+		}
+		gen("", 4)
+	}
 	spec := func(v string) (ma, mi uint64, ok bool) {
 		i := strings.Index(v, ".")
 		if i < 0 {
